@@ -55,12 +55,14 @@ func (w *vfWorld) NewBrowser(name, addr string) *vfBrowser {
 }
 
 type vfReq struct {
-	Method  string
-	Scheme  string // http | https (https => req.TLS set)
-	Host    string
-	Target  string      // request-target as written on the request line
-	Headers [][2]string // extra headers, in order, raw names
-	Body    []byte
+	Method string
+	Scheme string // http | https (https => req.TLS set)
+	Host   string
+	// EmptyHost sends "Host:" with an empty value; cookies are chosen as for Host
+	EmptyHost bool
+	Target    string      // request-target as written on the request line
+	Headers   [][2]string // extra headers, in order, raw names
+	Body      []byte
 	// cookie handling
 	NoJar       bool     // do not send jar cookies and do not apply Set-Cookie
 	NoApply     bool     // send jar cookies but do not apply Set-Cookie
@@ -326,7 +328,11 @@ func (b *vfBrowser) Text(r *vfReq) (text string, cookieSent string) {
 		m = "GET"
 	}
 	fmt.Fprintf(&sb, "%s %s HTTP/1.1\r\n", m, r.Target)
-	fmt.Fprintf(&sb, "Host: %s\r\n", r.Host)
+	if r.EmptyHost {
+		sb.WriteString("Host:\r\n") // legal: the header is there, its value is empty (req.Host == "")
+	} else {
+		fmt.Fprintf(&sb, "Host: %s\r\n", r.Host)
+	}
 	ck := ""
 	if r.CookieHdr != nil {
 		ck = *r.CookieHdr
